@@ -122,6 +122,9 @@ fn tables(thorough: bool) -> Vec<Table> {
     ]
 }
 
+/// (version, request-id) pairs under which every status code is decoded once more
+const HEADER_CONTEXTS: [(u16, u32); 8] = [(0x0100, 1), (0x0200, 1), (0x0201, 7), (0x0202, 0x7fff_ffff), (0x0000, 0), (0xffff, 0xffff_ffff), (0x0101, 0), (0x0300, 0x8000_0000)];
+
 fn case_json(table: &str, code: i64) -> Value {
     json!({"table": table, "code": code})
 }
@@ -155,6 +158,15 @@ fn judge_point(t: &Table, by_code: &BTreeMap<u32, &Row>, by_sym: &BTreeMap<&str,
             }
         } else if sc != StatusCode::UnknownStatusCode && sc as u32 as i64 != code {
             return Err(Fail::new("C16/status-code/unknown-maps-to-other-symbol", format!("undefined status {:#06x} decodes to {} (own code {:#06x})", code, name, sc as u32)));
+        }
+        // the statement has no clause about the version or the request-id of the header that carries the
+        // status: the same symbol and the same success verdict under every version / request-id
+        for (ver, id) in HEADER_CONTEXTS {
+            let h2 = IppHeader::new(IppVersion(ver), code as u16, id);
+            let sc2 = h2.status_code();
+            if format!("{sc2:?}") != name || sc2.is_success() != sc.is_success() {
+                return Err(Fail::new("C16/status-code/depends-on-header-context", format!("status {:#06x} decodes to {} (success={}) in a version 1.1 header and to {:?} (success={}) in a header with version {:#06x} and request-id {:#x}", code, name, sc.is_success(), sc2, sc2.is_success(), ver, id)));
+            }
         }
         let succ = sc.is_success();
         if (0..=2).contains(&code) && !succ {
@@ -192,8 +204,14 @@ impl std::io::Read for Pieces {
 fn judge_header_in_pieces(code: u16) -> Judge {
     use ipp::parser::{AsyncIppParser, IppParser};
     use ipp::reader::{AsyncIppReader, IppReader};
-    let bytes = vec![0x01, 0x01, (code >> 8) as u8, code as u8, 0x12, 0x34, 0x56, 0x78, 0x03];
+    let (ver, _) = HEADER_CONTEXTS[(code as usize / 3) % HEADER_CONTEXTS.len()];
+    let ver = if code % 3 == 0 { 0x0101 } else { ver };
+    let bytes = vec![(ver >> 8) as u8, ver as u8, (code >> 8) as u8, code as u8, 0x12, 0x34, 0x56, 0x78, 0x03];
     let whole = IppParser::new(IppReader::new(std::io::Cursor::new(bytes.clone()))).parse().map(|m| (m.header().operation_or_status, format!("{:?}", m.header().status_code()), m.header().request_id)).map_err(|e| Fail::new("C16/header-rejected", format!("a bare header with code {code:#06x} is rejected: {e:?}")))?;
+    let plain = format!("{:?}", IppHeader::new(IppVersion::v1_1(), code, 1).status_code());
+    if whole.1 != plain {
+        return Err(Fail::new("C16/status-code/depends-on-header-context", format!("status {code:#06x} parsed from a header with version {ver:#06x} decodes to {}, in a version 1.1 header to {plain}", whole.1)));
+    }
     if whole.0 != code || whole.2 != 0x1234_5678 {
         return Err(Fail::new("C16/header-fields", format!("header with code {code:#06x} and request-id 0x12345678 read as code {:#06x} id {:#x}", whole.0, whole.2)));
     }
